@@ -350,10 +350,16 @@ theorem compress_sound (axis : Option Int) (x c : ITy) (vx vc : RtVal) (k : Nat)
     (w : List RtVal) (hi : inferCompress axis x c = .ok outs) (hcx : conforms vx x = true)
     (_hcc : conforms vc c = true) (hr : rtCompress axis k vx = some w) : conformsAll w outs = true := by
   obtain ⟨xe, xs⟩ := vx
+  have huntyped : ∀ w, rtCompress axis k ⟨xe, xs⟩ = some w → conformsAll w [none] = true := by
+    intro w hw
+    unfold rtCompress at hw
+    split at hw
+    · simp at hw; subst hw; simp [conformsAll, conforms]
+    · split at hw <;> simp at hw; subst hw; simp [conformsAll, conforms]
   rcases x with _ | ⟨e, s⟩
-  · simp [inferCompress] at hi
+  · simp only [inferCompress, Res.ok.injEq] at hi; subst hi; exact huntyped w hr
   rcases c with _ | ct
-  · simp [inferCompress] at hi
+  · simp only [inferCompress, Res.ok.injEq] at hi; subst hi; exact huntyped w hr
   simp only [conforms, Bool.and_eq_true, beq_iff_eq] at hcx
   obtain ⟨hex, hsx⟩ := hcx
   unfold inferCompress at hi
@@ -547,6 +553,28 @@ theorem loop_scan_output_sound (a s : List Ty) (body : Body) (M : Nat) (c0 : Boo
             simp [column, List.filterMap_cons, hv]
           rw [hcol] at hs
           exact loop_scan_sound v (column scs' j) t w hc hs
+
+/-- Scan output of a loop that runs zero times: the runtime shapes it from the type the body declares
+    for that result (`emptyScanOk`, validated against onnxruntime), so it conforms to the reported
+    scan type too. Together with `loop_scan_output_sound` this covers every trip count. -/
+theorem loop_scan_zero_sound (w : RtVal) (t : Ty) (h : emptyScanOk w t = true) :
+    conforms w (some (scanTy t)) = true := by
+  simp only [emptyScanOk, Bool.and_eq_true] at h
+  simp only [conforms, Bool.and_eq_true]
+  refine ⟨h.1, ?_⟩
+  rcases t with ⟨e, _ | ds⟩
+  · simp [scanTy]
+  · obtain ⟨we, ws⟩ := w
+    rcases ws with _ | ⟨n, r⟩
+    · simp at h
+    · cases n with
+      | zero => simpa [scanTy, dimsOk] using h.2
+      | succ m => simp at h
+
+/-- No modelled routine turns a non-tensor input into a tensor claim: it raises, or (Binarizer,
+    Normalizer) hands the non-tensor type through — for which no runtime value exists. -/
+theorem nonTensor_outcomes_cover :
+    modelledOverrides.all (fun p => p.2 == "Loop" || (nonTensorOutcome p.2).isSome) = true := by decide
 
 /-! ## Non-vacuity: the hypotheses of the theorems are satisfiable and the conclusions say something -/
 
